@@ -98,6 +98,9 @@ class ModeStatistics:
                 f"incompatible with K={K}"
             )
 
+        # Cluster label that each mode was fitted on (mode k <-> labels[k])
+        self.labels = np.arange(K)
+
         # Precompute derived quantities for efficient MCMC
         self.inv_covariances = np.linalg.inv(self.covariances)
         self.chol_covariances = np.linalg.cholesky(self.covariances)
@@ -196,11 +199,33 @@ class ModeStatistics:
             covariances.append(covariance)
             degrees_of_freedom.append(dof)
 
-        return cls(
+        mode_stats = cls(
             means=np.array(means),
             covariances=np.array(covariances),
             degrees_of_freedom=np.array(degrees_of_freedom),
         )
+        mode_stats.labels = unique_labels
+        return mode_stats
+
+    def mode_index(self, labels: np.ndarray, u: np.ndarray) -> np.ndarray:
+        """
+        Map cluster labels of particles to indices into the mode arrays.
+
+        Modes are stored in the order of the labels that occurred among the
+        training particles, so a raw label is not in general its own index.
+        Particles whose label has no fitted mode (no training particle
+        carried it) are moved with the mode whose mean is nearest.
+        """
+        labels = np.asarray(labels)
+        idx = np.clip(np.searchsorted(self.labels, labels), 0, self.K - 1)
+        missing = self.labels[idx] != labels
+        if np.any(missing):
+            dist = np.linalg.norm(
+                np.asarray(u)[missing][:, np.newaxis, :] - self.means[np.newaxis, :, :],
+                axis=2,
+            )
+            idx[missing] = np.argmin(dist, axis=1)
+        return idx
 
     @classmethod
     def from_global(
